@@ -254,6 +254,13 @@ def replaceFn (m : Macro) (inputArgs : List Arg) : Except Err (List Tok) :=
 
 /-! ## the loop -/
 
+/-- is the `i`-th collected argument macro-expanded before substitution?  The arguments beyond the named parameters of a
+    variadic macro all belong to its last parameter (`__VA_ARGS__`); for other macros an argument without a parameter is
+    expanded (the call then fails in `replace`). -/
+def needsPre (m : Macro) (i : Nat) : Bool :=
+  if m.variadic && decide (i ≥ m.needsExp.length) then m.needsExp.getLast?.getD true
+  else (decide (i ≥ m.needsExp.length) || m.needsExp.getD i true)
+
 /-- after the arguments of a call were collected: pre-expand those that need it (each by a nested `expand`,
     i.e. by pushing a frame), then substitute and push the replacement -/
 def processArgs (c : Cfg) (pw : Bool) (m : Macro) : List (List Tok) → List Arg → MS → Out
@@ -264,7 +271,7 @@ def processArgs (c : Cfg) (pw : Bool) (m : Macro) : List (List Tok) → List Arg
       if s.stack.length + 1 ≥ c.lim then .cont (overflowState s.frames)
       else .cont ⟨⟨(fixpw repl pw).map some, 0, false⟩ :: s.stack, some m.name :: s.noExp, s.frames, none⟩
   | a :: rest, done, s =>
-    if done.length ≥ m.needsExp.length || m.needsExp.getD done.length true then
+    if needsPre m done.length then
       if s.stack.length ≥ c.lim then .cont (overflowState s.frames)
       else if a.isEmpty then processArgs c pw m rest (done ++ [⟨a, some a⟩]) s
       else .cont ⟨⟨a.map some, 0, true⟩ :: s.stack, none :: s.noExp, ⟨pw, m, a, rest, done⟩ :: s.frames, none⟩
